@@ -454,6 +454,10 @@ jose_jwe_dec_cek(jose_cfg_t *cfg, const json_t *jwe, const json_t *cek,
     if (!o || !d || !i || !i->feed(i, ct, ctl) || !i->done(i))
         return NULL;
 
+    /* An empty plaintext is a success: return an (empty) buffer, not NULL. */
+    if (!pt)
+        pt = calloc(1, 1);
+
     return jose_io_malloc_steal(&pt);
 }
 
